@@ -44,6 +44,8 @@ def main():
     known_lines = []
 
     try:
+        if hasattr(mod, "pre"):
+            mod.pre(ctx)
         tb = core.build_harness()
         if getattr(mod, "NEEDS_CVM", False):
             core.build_cvm()
@@ -52,8 +54,17 @@ def main():
         built = True
     except Fail as e:
         built = False
-        violations.append(("build", {"property": prop, "kind": "no-failing-input-found",
-                                     "relation": "build of harness/model/theorems", "detail": str(e)[-3000:]}))
+        handled = None
+        if hasattr(mod, "on_build_fail"):
+            try:
+                handled = mod.on_build_fail(ctx, str(e))
+            except Exception as e2:  # the search itself failed: fall back to the plain report
+                notes.append("on_build_fail raised: %r" % (e2,))
+        if handled:
+            violations.append(handled)
+        else:
+            violations.append(("build", {"property": prop, "kind": "no-failing-input-found",
+                                         "relation": "build of harness/model/theorems", "detail": str(e)[-3000:]}))
 
     if built:
         # ---------------- proof audit
